@@ -59,6 +59,13 @@ class ScoreModel(Model):
             self.timestep = t["dt"]     # the model's OWN attribute of that name (a step length, say): not the scheduler's counter
 
 
+class ScoreModelT(ScoreModel):
+    """a user model class that is always truthy (users do this to get rid of the 'a finished model is falsy' trap): whether a model
+    still runs is answered by is_running(), which it leaves alone"""
+    def __bool__(self):
+        return True
+
+
 def score_of(model):
     return model.score_value
 
@@ -138,19 +145,27 @@ def _run_case(case):
         params["b"] = list(range(nb))
     expected_combos = [{"a": a, "table": table, **({"b": b} if "b" in params else {})} for a in range(na) for b in range(nb)]
 
+    model_cls = ScoreModelT if case.get("truthy") else ScoreModel
+
     def call(processes):
         _inst.clear()
         p = params
         if case.get("plist"):
             p = ParameterList()
+            if case.get("plist") == 2:          # a list object that served an earlier search: other values, built, every name declared again
+                for k, v in params.items():
+                    p.add_parameter(k, [-7, -8, -9] if k in ("a", "b") else v)
+                p.build()
+                for k in list(params):
+                    p.remove_parameter(k)
             for k, v in params.items():
                 p.add_parameter(k, v)
         kw = {}
         if max_ts is not None:
             kw["max_timesteps"] = int(max_ts)
         if case.get("positional") and "max_timesteps" in kw:     # every argument in its documented position
-            return grid_search(ScoreModel, p, score_fn, processes, kw["max_timesteps"], reps, mode)
-        return grid_search(ScoreModel, p, score_fn, processes=processes, repetitions=reps, mode=mode, **kw)
+            return grid_search(model_cls, p, score_fn, processes, kw["max_timesteps"], reps, mode)
+        return grid_search(model_cls, p, score_fn, processes=processes, repetitions=reps, mode=mode, **kw)
 
     def verify(best, results, tag):
         if not isinstance(results, list) or len(results) != len(combos):
@@ -299,7 +314,7 @@ def strategy(tier):
         complete_at = draw(st.sampled_from([0, 0, 1, 2, None]))
         max_ts = draw(st.sampled_from([None, 0, 1, 2, 3])) if complete_at is not None else draw(st.integers(0, 3))
         return {"na": na, "nb": nb, "float": is_float, "mode": mode, "reps": reps, "scores": scores, "processes": procs,
-                "plist": draw(st.booleans()), "a_list": draw(st.booleans()), "b_list": draw(st.booleans()),
+                "plist": draw(st.sampled_from([False, True, True, 2])), "truthy": draw(st.integers(0, 5)) == 0, "a_list": draw(st.booleans()), "b_list": draw(st.booleans()),
                 "complete_at": complete_at, "max_timesteps": max_ts,
                 "positional": draw(st.integers(0, 2)) == 0, "nested": draw(st.integers(0, 5)) == 0 and not large, "dt": draw(st.sampled_from([None, None, None, None, None, 0.25, 2, 100])),
                 "cost": [draw(st.sampled_from([0, 0, 1, 3])) for _ in range(n)] if procs > 1 else []}
